@@ -148,6 +148,7 @@ type Case struct {
 	Args    []string      // extra args for other modes
 	KeepWd  bool          // do not (re)create sources; re-run in place
 	RunNo   int           // run number inside the same root (separate meta files)
+	WdRel   string        // working directory relative to Root (default "wd")
 	KillAtTraceLine int   // > 0: SIGKILL the process group as soon as the command trace has this many lines (a logical instant)
 }
 
@@ -187,7 +188,11 @@ func (r *Result) Output() string {
 
 // Prepare creates wd and meta and writes sources.
 func (c *Case) Prepare() (wd, meta string, err error) {
-	wd = filepath.Join(c.Root, "wd")
+	wdRel := c.WdRel
+	if wdRel == "" {
+		wdRel = "wd"
+	}
+	wd = filepath.Join(c.Root, wdRel)
 	meta = filepath.Join(c.Root, "meta")
 	os.MkdirAll(wd, 0777)
 	os.MkdirAll(meta, 0777)
